@@ -213,4 +213,85 @@ theorem mapM_except_length {α β ε : Type} (f : α → Except ε β) : ∀ (l 
         subst h
         simp [ih bs hr]
 
+theorem flatMap_append_perm {α β : Type} (l : List α) (f g : α → List β) :
+    (l.flatMap (fun x => f x ++ g x)).Perm (l.flatMap f ++ l.flatMap g) := by
+  induction l with
+  | nil => simp
+  | cons x xs ih =>
+    simp only [List.flatMap_cons]
+    -- f x ++ g x ++ rest ~ f x ++ (xs.flatMap f) ++ (g x ++ xs.flatMap g)
+    have h1 : (f x ++ g x ++ xs.flatMap (fun x => f x ++ g x)).Perm (f x ++ g x ++ (xs.flatMap f ++ xs.flatMap g)) :=
+      List.Perm.append_left _ ih
+    refine h1.trans ?_
+    simp only [List.append_assoc]
+    refine List.Perm.append_left _ ?_
+    rw [← List.append_assoc, ← List.append_assoc]
+    exact List.Perm.append_right _ List.perm_append_comm
+
+/-- exchanging two nested concatenations permutes the result -/
+theorem flatMap_swap_perm {α β γ : Type} (l : List α) (m : List β) (f : α → β → List γ) :
+    (l.flatMap (fun x => m.flatMap (fun y => f x y))).Perm (m.flatMap (fun y => l.flatMap (fun x => f x y))) := by
+  induction m with
+  | nil => simp
+  | cons y ys ih =>
+    simp only [List.flatMap_cons]
+    exact (flatMap_append_perm l (fun x => f x y) (fun x => ys.flatMap (fun y => f x y))).trans (List.Perm.append_left _ ih)
+
+theorem mapM_except_eq_map {α β ε : Type} (f : α → Except ε β) (g : α → β) (hfg : ∀ a b, f a = .ok b → b = g a) :
+    ∀ (l : List α) (r : List β), l.mapM f = .ok r → r = l.map g := by
+  intro l
+  induction l with
+  | nil => intro r h; simp only [List.mapM_nil, pure, Except.pure, Except.ok.injEq] at h; subst h; rfl
+  | cons a as ih =>
+    intro r h
+    simp only [List.mapM_cons, bind, Except.bind, pure, Except.pure] at h
+    cases ha : f a with
+    | error e => rw [ha] at h; cases h
+    | ok b =>
+      rw [ha] at h
+      cases hr : as.mapM f with
+      | error e => rw [hr] at h; cases h
+      | ok bs =>
+        rw [hr] at h
+        simp only [Except.ok.injEq] at h
+        subst h
+        simp [hfg a b ha, ih bs hr]
+
+theorem range_flatMap_getD (l : List (List Op)) : (List.range l.length).flatMap (fun k => l[k]?.getD []) = l.flatten := by
+  induction l with
+  | nil => simp
+  | cons x xs ih =>
+    simp only [List.length_cons, List.range_succ_eq_map, List.flatMap_cons, List.flatMap_map, List.flatten_cons]
+    simp only [List.getElem?_cons_zero, Option.getD_some, List.getElem?_cons_succ]
+    rw [ih]
+
+theorem foldl_max_ge_mem (l : List Nat) (b : Nat) : b ≤ l.foldl max b ∧ ∀ x ∈ l, x ≤ l.foldl max b := by
+  induction l generalizing b with
+  | nil => simp
+  | cons y ys ih =>
+    obtain ⟨h1, h2⟩ := ih (max b y)
+    simp only [List.foldl_cons]
+    refine ⟨by omega, ?_⟩
+    intro x hx
+    rcases List.mem_cons.mp hx with rfl | hx
+    · omega
+    · exact h2 x hx
+
+theorem padTo_length_eq (a : Align) (n : Nat) (c : Circuit) (h : c.length ≤ n) : (padTo a n c).length = n := by
+  cases a <;> simp [padTo] <;> omega
+
+theorem padTo_flatten (a : Align) (n : Nat) (c : Circuit) : (padTo a n c).flatten = c.flatten := by
+  have hrep : ∀ k, (List.replicate k ([] : Moment)).flatten = [] := by
+    intro k; induction k with
+    | zero => rfl
+    | succ k ih => simp [List.replicate_succ, ih]
+  cases a <;> simp [padTo, hrep]
+
+theorem flatMap_congr_mem {α β : Type} (l : List α) (f g : α → List β) (h : ∀ x ∈ l, f x = g x) : l.flatMap f = l.flatMap g := by
+  induction l with
+  | nil => rfl
+  | cons x xs ih =>
+    simp only [List.flatMap_cons]
+    rw [h x (by simp), ih (fun y hy => h y (by simp [hy]))]
+
 end CirqVerif.C05
